@@ -1269,10 +1269,10 @@ SYS_DATA = {
              {"id": 2, "title": "beta", "rating": 2, "author_id": None},
              {"id": 3, "title": "alpha", "rating": 3, "author_id": 2},
              {"id": 4, "title": "gamma", "rating": 0, "author_id": 1}],
-    "Comment": [{"id": 1, "body": "nice", "post_id": 1, "writer_id": 2, "reviewer_id": 1},
-                {"id": 2, "body": "cool", "post_id": 3, "writer_id": None, "reviewer_id": 2},
-                {"id": 3, "body": "nice", "post_id": 1, "writer_id": 1, "reviewer_id": None},
-                {"id": 4, "body": "meh", "post_id": 2, "writer_id": 3, "reviewer_id": 1}],
+    "Comment": [{"id": 1, "body": "nice", "post_id": 1, "writer_id": 2, "co_writer_id": 1},
+                {"id": 2, "body": "cool", "post_id": 3, "writer_id": None, "co_writer_id": 2},
+                {"id": 3, "body": "nice", "post_id": 1, "writer_id": 1, "co_writer_id": None},
+                {"id": 4, "body": "meh", "post_id": 2, "writer_id": 3, "co_writer_id": 1}],
 }
 SYS_STYLES = ["sa_select", "sa_select_aliased", "sa_legacy", "sa_legacy_aliased", "sa_core",
               "sa_core_cols",
@@ -1377,11 +1377,11 @@ def _sys_history(style, root, shape, fkind):
     elif shape.startswith("join_"):
         form = {"outer": "outer_rel"}.get(shape[5:], shape[5:])
         if shape == "join_aliased_other":
-            # the host joins Comment.reviewer through its own alias of Author; the
+            # the host joins Comment.co_writer through its own alias of Author; the
             # filter navigates the other relationship to that entity (writer)
             if root != "Comment" or core or dj or fkind == "nav2":
                 return None
-            rel, form = "reviewer", "aliased_rel"
+            rel, form = "co_writer", "aliased_rel"
         elif shape == "join_other":
             if other is None or core:
                 return None
